@@ -146,10 +146,15 @@ def make_data(n, dims=1, grid=5, kind="generic", seed=0, outlier_prob=0.0, het=F
     """Finite alphabet of likelihood-grid data sets (see DESIGN.md section 4)."""
     from phyclone.data.base import DataPoint
 
-    rs = np.random.RandomState({"generic": 11, "flat": 12, "peaked": 13, "extreme": 14, "needle": 15, "seeded": 1000 + seed}.get(kind, 11))
+    rs = np.random.RandomState({"generic": 11, "flat": 12, "peaked": 13, "extreme": 14, "needle": 15, "dup": 16, "seeded": 1000 + seed}.get(kind, 11))
     data = []
+    dup_v = None
     for i in range(n):
-        if kind == "flat":
+        if kind == "dup":  # byte-identical likelihood grids (duplicated mutations): equal sibling vectors
+            if dup_v is None:
+                dup_v = -3.0 * rs.rand(dims, grid)
+            v = dup_v.copy()
+        elif kind == "flat":
             v = np.zeros((dims, grid))
         elif kind == "peaked":
             c = rs.rand(dims, 1)
